@@ -17,6 +17,7 @@ import (
 	"sort"
 	"strings"
 	"sync"
+	"time"
 
 	"github.com/go-critic/go-critic/linter"
 	"golang.org/x/tools/go/packages"
@@ -243,6 +244,8 @@ func LoadS2(fset *token.FileSet, scratch string) ([]*Pkg, error) {
 		return nil, nil
 	}
 	writeContextPairs(mod)
+	writeVisitorShapes(mod)
+	writeTypeCycles(mod)
 	return LoadDirs(fset, mod, "S2", []string{"./..."})
 }
 
@@ -657,4 +660,19 @@ func writeContextPairs(mod string) {
 	common.WriteFile(filepath.Join(mod, "ctxord", "a.go"), ord.String())
 	common.WriteFile(filepath.Join(mod, "ctxex", "a.go"), ex.String())
 	common.WriteFile(filepath.Join(mod, "ctxmix", "a.go"), mix.String())
+}
+
+// IsTimeout reports whether err is the wall-clock limit of common.Run / common.RunSplit.
+func IsTimeout(err error) bool { return err != nil && strings.Contains(err.Error(), "timeout after") }
+
+// RunPatient is common.RunSplit for the oracles whose subject is NOT termination: a run that hits the wall-clock limit
+// (a normal run takes seconds; the limit is only there so that a hung binary cannot block the check for ever) is retried
+// once with three times the limit. Callers must treat a remaining IsTimeout error as "no observation" (a note), never
+// as a failure of their property: a hang is C01's subject and is decided there by an unloaded sequential re-run.
+func RunPatient(limit time.Duration, dir string, env []string, name string, args ...string) (string, string, int, error) {
+	so, se, code, err := common.RunSplit(limit, dir, env, name, args...)
+	if IsTimeout(err) {
+		so, se, code, err = common.RunSplit(3*limit, dir, env, name, args...)
+	}
+	return so, se, code, err
 }
